@@ -1,18 +1,872 @@
 //go:build verif
 
+// C14 harness: the proxy authorization policy enforces exactly the intention decision.
+//
+// For generated intention sets (service-intentions config entries normalised and validated by
+// the real structs code, plus a hand-built malformed stream) it calls the real
+// makeRBACNetworkFilter / makeRBACHTTPFilter / makeRBACRules of agent/xds, prints the returned
+// envoy RBAC proto canonically, evaluates it with an independent evaluator (Envoy semantics, Go
+// regexp = RE2) for every caller and request of a universe built around the names mentioned, and
+// prints
+//   rbac=<policy> eval=<bits> spec=<bits>
+// for the Lean model (CV.Rbac: translate, evalRbac, specAllow) to reproduce. Monitors (model
+// independent): the evaluated proto must agree with the intention decision for every valid
+// caller; the filter must wrap exactly the rules; the result must not depend on input order.
 package main
 
 import (
 	"fmt"
+	"net/url"
+	"os"
+	"regexp"
+	"strings"
+
+	envoy_rbac_v3 "github.com/envoyproxy/go-control-plane/envoy/config/rbac/v3"
+	envoy_http_rbac_v3 "github.com/envoyproxy/go-control-plane/envoy/extensions/filters/http/rbac/v3"
+	envoy_network_rbac_v3 "github.com/envoyproxy/go-control-plane/envoy/extensions/filters/network/rbac/v3"
+	"google.golang.org/protobuf/proto"
 
 	"github.com/hashicorp/consul/agent/structs"
 	"github.com/hashicorp/consul/agent/xds"
 	"github.com/hashicorp/consul/internal/verifharness/hx"
 )
 
+const dest = "api"
+
+func urlUnsafe(s string) bool {
+	u := url.URL{Path: "/" + s}
+	return u.EscapedPath() != "/"+s
+}
+
+// ---------------------------------------------------------------- running the real code
+
+type result struct {
+	rb    *envoy_rbac_v3.RBAC
+	panic string
+	err   error
+}
+
+func cloneIxns(xs []*structs.Intention) structs.SimplifiedIntentions {
+	out := make(structs.SimplifiedIntentions, len(xs))
+	for i, x := range xs {
+		out[i] = x.Clone()
+	}
+	return out
+}
+
+func callRules(e envT, xs []*structs.Intention, dflt, http bool) (res result) {
+	defer func() {
+		if p := recover(); p != nil {
+			res = result{panic: fmt.Sprint(p)}
+		}
+	}()
+	rb, err := xds.VerifMakeRBACRules(cloneIxns(xs), dflt, e.localTD, "dc1", "default", http, e.proto())
+	return result{rb: rb, err: err}
+}
+
+// callFilter goes through the functions the listener code calls and unwraps the typed config.
+func callFilter(e envT, xs []*structs.Intention, dflt, http bool) (res result) {
+	defer func() {
+		if p := recover(); p != nil {
+			res = result{panic: fmt.Sprint(p)}
+		}
+	}()
+	if http {
+		f, err := xds.VerifMakeRBACHTTPFilter(cloneIxns(xs), dflt, e.localTD, "dc1", "default", e.proto())
+		if err != nil {
+			return result{err: err}
+		}
+		var cfg envoy_http_rbac_v3.RBAC
+		if err := f.GetTypedConfig().UnmarshalTo(&cfg); err != nil {
+			return result{err: err}
+		}
+		if f.GetName() != "envoy.filters.http.rbac" || cfg.GetShadowRules() != nil {
+			return result{err: fmt.Errorf("unexpected http filter %q", f.GetName())}
+		}
+		return result{rb: cfg.GetRules()}
+	}
+	f, err := xds.VerifMakeRBACNetworkFilter(cloneIxns(xs), dflt, e.localTD, "dc1", "default", e.proto())
+	if err != nil {
+		return result{err: err}
+	}
+	var cfg envoy_network_rbac_v3.RBAC
+	if err := f.GetTypedConfig().UnmarshalTo(&cfg); err != nil {
+		return result{err: err}
+	}
+	if f.GetName() != "envoy.filters.network.rbac" || cfg.GetShadowRules() != nil {
+		return result{err: fmt.Errorf("unexpected network filter %q", f.GetName())}
+	}
+	return result{rb: cfg.GetRules()}
+}
+
+// ---------------------------------------------------------------- one rbac case
+
+type rbacCase struct {
+	env     envT
+	ixns    []*structs.Intention
+	dflt    bool
+	http    bool
+	callers []caller
+	reqs    []*request
+	canon   bool // precedences are the ones UpdatePrecedence computes
+}
+
+func (c *rbacCase) op() string {
+	return fmt.Sprintf("rbac %s %s %s %s %s %s %s", hx.EncBool(c.dflt), hx.EncBool(c.http), hx.EncS(c.env.localTD),
+		encBundles(c.env.bundles), encIxns(c.ixns), encCallers(c.callers), encReqs(c.reqs, allPerms(c.ixns)))
+}
+
+func bitsOf(bs []bool) string {
+	b := make([]byte, len(bs))
+	for i, x := range bs {
+		b[i] = '0'
+		if x {
+			b[i] = '1'
+		}
+	}
+	return string(b)
+}
+
+func mentioned(xs []*structs.Intention, peerOK func(string) bool, name string) bool {
+	for _, x := range xs {
+		if x.SourceName == name && peerOK(x.SourcePeer) {
+			return true
+		}
+	}
+	return false
+}
+
+func effectiveName(c caller) string {
+	if c.hasFwd && len(c.fwd) > 0 && c.direct.kind == 'g' {
+		return c.fwd[0].uri.name
+	}
+	return c.direct.name
+}
+
+func (c *rbacCase) validCaller(k caller) bool {
+	if !c.env.ok() {
+		return false
+	}
+	if k.direct.kind == 'r' || !c.env.knownTD(k.direct.td) {
+		return false
+	}
+	if k.hasFwd {
+		for _, e := range k.fwd {
+			if e.uri.kind == 'r' || !c.env.knownTD(e.uri.td) {
+				return false
+			}
+			if strings.ContainsAny(e.pre, ",") || strings.Contains(e.pre, ";URI=") {
+				return false
+			}
+		}
+	}
+	return true
+}
+
+func runRBAC(run *hx.Run, c *rbacCase) {
+	op := c.op()
+	reqs := c.reqs
+	if !c.http {
+		reqs = []*request{{}}
+	}
+	// reference decision (printed as spec=, and used by the monitor)
+	spec := make([][]bool, len(c.callers))
+	for i, k := range c.callers {
+		for _, q := range reqs {
+			d, _ := decide(c.env, c.ixns, c.dflt, c.http, k, q)
+			spec[i] = append(spec[i], d)
+		}
+	}
+	specS := make([]string, len(spec))
+	for i := range spec {
+		specS[i] = bitsOf(spec[i])
+	}
+	res := callFilter(c.env, c.ixns, c.dflt, c.http)
+	nontrivial := len(c.ixns) > 0
+	run.Case(op, nontrivial)
+	if res.panic != "" {
+		run.Tag("result:panic")
+		run.Line(op, "rbac=panic eval=- spec="+strings.Join(specS, "."))
+		return
+	}
+	if res.err != nil {
+		run.Tag("result:error")
+		run.Line(op, "rbac=error eval=- spec="+strings.Join(specS, "."))
+		run.Violate("rbac:unexpected-error", res.err.Error(), []string{op})
+		return
+	}
+	rb := res.rb
+	ctx := &evalCtx{}
+	evalS := make([]string, len(c.callers))
+	ev := make([][]bool, len(c.callers))
+	for i, k := range c.callers {
+		w := k.wire()
+		for _, q := range reqs {
+			ev[i] = append(ev[i], ctx.evalRBAC(rb, w, q))
+		}
+		evalS[i] = bitsOf(ev[i])
+	}
+	run.Line(op, "rbac="+sRBAC(rb)+" eval="+strings.Join(evalS, ".")+" spec="+strings.Join(specS, "."))
+
+	// ---- tags
+	run.Tag(fmt.Sprintf("ixns:%d", len(c.ixns)))
+	run.Tag(fmt.Sprintf("policies:%d", len(rb.GetPolicies())))
+	run.Tag("action:" + rb.GetAction().String())
+	if c.http {
+		run.Tag("listener:http")
+	} else {
+		run.Tag("listener:tcp")
+	}
+	if expectXFCC(c.env, c.http, c.ixns) {
+		run.Tag("mode:xfcc")
+	}
+	if !c.env.ok() {
+		run.Tag("env:colliding-peer-identities")
+	}
+	s := sRBAC(rb)
+	if strings.Contains(s, "not(auth") {
+		run.Tag("shape:not-source")
+	}
+	if strings.Contains(s, "not(xfcc") {
+		run.Tag("shape:not-xfcc-source")
+	}
+	if strings.Contains(s, "L7-") {
+		run.Tag("shape:l7-policy")
+	}
+	if strings.Contains(s, "and(path") || strings.Contains(s, "and(hdr") || strings.Contains(s, "not(path") || strings.Contains(s, "not(hdr") || strings.Contains(s, "not(and") {
+		run.Tag("shape:not-permission")
+	}
+	for _, x := range c.ixns {
+		switch {
+		case len(x.Permissions) > 0 && !c.http:
+			run.Tag("ixn:l7-on-tcp")
+		case len(x.Permissions) > 0:
+			run.Tag("ixn:l7")
+		case x.Action == structs.IntentionActionAllow:
+			run.Tag("ixn:allow")
+		default:
+			run.Tag("ixn:deny")
+		}
+		if x.SourcePeer != "" {
+			run.Tag("ixn:peered")
+		}
+		if x.SourceName == "*" {
+			run.Tag("ixn:wild-source")
+		}
+		if x.DestinationName == "*" {
+			run.Tag("ixn:wild-destination")
+		}
+	}
+
+	// ---- monitors
+	if len(ctx.badRegex) > 0 || len(ctx.unknown) > 0 {
+		run.Violate("rbac:unevaluable-policy", fmt.Sprintf("bad regex %q unknown nodes %q", ctx.badRegex, ctx.unknown), []string{op})
+	}
+	if want := envoy_rbac_v3.RBAC_ALLOW; (c.dflt && rb.GetAction() != envoy_rbac_v3.RBAC_DENY) || (!c.dflt && rb.GetAction() != want) {
+		run.Violate("rbac:action-is-not-complement-of-default", "default allow="+hx.EncBool(c.dflt)+" action="+rb.GetAction().String(), []string{op})
+	}
+	// the filter wraps exactly what makeRBACRules returns, and the input order is irrelevant
+	rev := make([]*structs.Intention, len(c.ixns))
+	for i, x := range c.ixns {
+		rev[len(c.ixns)-1-i] = x
+	}
+	r2 := callRules(c.env, rev, c.dflt, c.http)
+	if r2.rb == nil || !proto.Equal(r2.rb, rb) {
+		run.Violate("rbac:filter-or-order-dependent", "makeRBACRules on the reversed input differs from the filter's rules", []string{op})
+	}
+	for i, k := range c.callers {
+		valid := c.validCaller(k)
+		run.Tag("caller:" + k.class)
+		if !valid {
+			run.Tag("caller-not-monitored:" + k.class)
+		}
+		for j := range reqs {
+			if ev[i][j] == spec[i][j] {
+				continue
+			}
+			if !valid {
+				run.Tag("note:unmonitored-caller-diverges:" + k.class)
+				continue
+			}
+			if !c.canon {
+				run.Tag("note:noncanonical-precedence-diverges")
+			}
+			got, want := "denies", "allow"
+			if ev[i][j] {
+				got, want = "allows", "deny"
+			}
+			name := effectiveName(k)
+			sig := fmt.Sprintf("rbac:policy-%s-intentions-%s:%s", got, want, k.class)
+			if urlUnsafe(name) && mentioned(c.ixns, func(string) bool { return true }, name) {
+				sig = "rbac:source-name-needs-url-escaping"
+			}
+			run.Violate(sig, fmt.Sprintf("caller %s (xfcc=%v) request %d: RBAC %s, intentions say %s; policy %s",
+				k.wire().principal, k.hasFwd, j, got, want, s), []string{op})
+			break
+		}
+	}
+}
+
+// ---------------------------------------------------------------- generators of rbac cases
+
+func nearMisses(n string) []string {
+	var out []string
+	for i := 0; i < len(n); i++ {
+		if strings.ContainsRune(`\.+*?()|[]{}^$`, rune(n[i])) {
+			out = append(out, n[:i]+"x"+n[i+1:])
+			out = append(out, n[:i]+n[i+1:])
+		}
+	}
+	out = append(out, n+"x", "x"+n)
+	if len(n) > 1 {
+		out = append(out, n[:len(n)-1])
+	}
+	return out
+}
+
+const xfccPre = `By=spiffe://` + localTD + `/gateway/mesh/dc/dc1;Hash=2a2db78ac351a058;Cert="-----BEGIN%20CERTIFICATE-----";Chain="x";Subject=""`
+
+func genCallers(r *hx.RNG, e envT, xs []*structs.Intention, http bool, max int) []caller {
+	var names []string
+	seen := map[string]bool{}
+	add := func(n string) {
+		if n != "*" && n != "" && !seen[n] && !strings.Contains(n, "/") {
+			seen[n] = true
+			names = append(names, n)
+		}
+	}
+	var near []string
+	for _, x := range xs {
+		add(x.SourceName)
+	}
+	nm := len(names)
+	for _, n := range names[:nm] {
+		near = append(near, nearMisses(n)...)
+	}
+	hx.Shuffle(r, near)
+	for _, n := range near {
+		if len(names) >= nm+5 {
+			break
+		}
+		add(n)
+	}
+	add("zzz")
+	add(dest)
+	isNear := func(n string) bool {
+		for _, m := range names[:nm] {
+			if m == n {
+				return false
+			}
+		}
+		return true
+	}
+	var out []caller
+	peers := []bundle{}
+	seenP := map[string]bool{}
+	for i := len(e.bundles) - 1; i >= 0; i-- {
+		if !seenP[e.bundles[i].peer] {
+			seenP[e.bundles[i].peer] = true
+			peers = append(peers, e.bundles[i])
+		}
+	}
+	xf := expectXFCC(e, http, xs)
+	for _, n := range names {
+		nmiss := isNear(n)
+		out = append(out, caller{direct: ident{kind: 's', td: e.localTD, ns: "default", dc: hx.Pick(r, dcPool), name: n}, class: "local", nearmiss: nmiss})
+		for _, p := range peers {
+			id := ident{kind: 's', td: p.td, ap: p.ap, ns: "default", dc: hx.Pick(r, dcPool), name: n}
+			if xf || (http && r.Chance(20)) {
+				gw := ident{kind: 'g', td: e.localTD, dc: "dc1"}
+				k := caller{direct: gw, hasFwd: true, fwd: []xelem{{xfccPre, id}}, class: "xfcc", nearmiss: nmiss}
+				if r.Chance(25) {
+					k.fwd = append(k.fwd, xelem{xfccPre, ident{kind: 'g', td: e.localTD, dc: "dc1"}})
+					k.class = "xfcc-2hops"
+				}
+				out = append(out, k)
+				if r.Chance(30) {
+					out = append(out, caller{direct: id, class: "peer-direct", nearmiss: nmiss})
+				}
+			} else {
+				out = append(out, caller{direct: id, class: "peer", nearmiss: nmiss})
+			}
+		}
+	}
+	// special callers around one mentioned (or fresh) name
+	n := names[r.Intn(len(names))]
+	out = append(out,
+		caller{direct: ident{kind: 's', td: e.localTD, ns: "other", dc: "dc1", name: n}, class: "other-namespace"},
+		caller{direct: ident{kind: 's', td: e.localTD, ap: "ap9", ns: "default", dc: "dc1", name: n}, class: "other-partition"},
+		caller{direct: ident{kind: 's', td: "ffffffff-0000-0000-0000-000000000000.consul", ns: "default", dc: "dc1", name: n}, class: "unknown-td"},
+		caller{direct: ident{kind: 's', td: strings.Replace(e.localTD, ".", "x", 1), ns: "default", dc: "dc1", name: n}, class: "td-nearmiss"},
+		caller{direct: ident{kind: 'g', td: e.localTD, dc: "dc1"}, class: "gateway-no-xfcc"},
+		caller{direct: ident{kind: 'r', raw: "spiffe://" + e.localTD + "/ns/default/dc/dc1/svc/" + n + "/extra"}, class: "raw-extra-segment"},
+	)
+	if len(peers) > 0 {
+		p := peers[r.Intn(len(peers))]
+		id := ident{kind: 's', td: p.td, ap: p.ap, ns: "default", dc: "dc2", name: n}
+		out = append(out,
+			caller{direct: ident{kind: 'g', td: p.td, dc: "dc2"}, hasFwd: true, fwd: []xelem{{xfccPre, id}}, class: "xfcc-foreign-gateway"},
+			caller{direct: ident{kind: 's', td: e.localTD, ns: "default", dc: "dc1", name: n}, hasFwd: true, fwd: []xelem{{xfccPre, id}}, class: "local-with-xfcc"},
+			caller{direct: ident{kind: 's', td: p.td, ap: strings.ToUpper(p.ap), ns: "default", dc: "dc2", name: n}, class: "peer-upper-partition"},
+			caller{direct: ident{kind: 'g', td: e.localTD, dc: "dc1"}, hasFwd: true,
+				fwd: []xelem{{`By=x;Subject="CN=a,O=b"`, id}}, class: "xfcc-comma-in-subject"},
+		)
+	}
+	if len(out) > max {
+		// keep the first callers (mentioned names) and a random sample of the rest
+		head, rest := out[:max/2], append([]caller(nil), out[max/2:]...)
+		hx.Shuffle(r, rest)
+		out = append(append([]caller(nil), head...), rest[:max-max/2]...)
+	}
+	return out
+}
+
+func pickBundles(r *hx.RNG) []bundle {
+	var bs []bundle
+	switch r.Intn(10) {
+	case 0, 1, 2:
+	case 3, 4:
+		bs = []bundle{bundlePool[0]}
+	case 5, 6:
+		bs = []bundle{bundlePool[0], bundlePool[1]}
+	case 7:
+		bs = []bundle{bundlePool[1], bundlePool[2], bundlePool[6]}
+	case 8:
+		bs = []bundle{bundlePool[0], bundlePool[1], {"p1", tdP2, "ap7"}} // duplicate peer name: last wins
+	default:
+		for n := 1 + r.Intn(3); n > 0; n-- {
+			bs = append(bs, hx.Pick(r, bundlePool))
+		}
+	}
+	hx.Shuffle(r, bs)
+	return bs
+}
+
+// genEntries builds the service-intentions entries for the destination and for "*" and lets the
+// real code normalise (precedence) and validate them.
+func genCaseCE(r *hx.RNG, run *hx.Run, names []string) *rbacCase {
+	c := &rbacCase{dflt: r.Bool(), http: r.Chance(60), canon: true}
+	c.env = envT{localTD: localTD, bundles: pickBundles(r)}
+	peerChoices := []string{"", "", "", ""}
+	for _, b := range c.env.bundles {
+		peerChoices = append(peerChoices, b.peer)
+	}
+	if r.Chance(20) {
+		peerChoices = append(peerChoices, "pm") // peer without trust bundle
+	}
+	l7ok := c.http || r.Chance(8)
+	mk := func(dst string, n int) []*structs.Intention {
+		for attempt := 0; attempt < 6; attempt++ {
+			e := &structs.ServiceIntentionsConfigEntry{Kind: structs.ServiceIntentions, Name: dst}
+			seen := map[string]bool{}
+			for i := 0; i < n; i++ {
+				name := hx.Pick(r, names)
+				if r.Chance(25) {
+					name = "*"
+				}
+				peer := hx.Pick(r, peerChoices)
+				if seen[peer+"/"+name] {
+					continue
+				}
+				seen[peer+"/"+name] = true
+				s := &structs.SourceIntention{Name: name, Peer: peer, Action: structs.IntentionActionAllow}
+				if r.Bool() {
+					s.Action = structs.IntentionActionDeny
+				}
+				if dst != "*" && l7ok && r.Chance(35) {
+					s.Action = ""
+					for k := 1 + r.Intn(3); k > 0; k-- {
+						s.Permissions = append(s.Permissions, genPerm(r, true))
+					}
+				}
+				e.Sources = append(e.Sources, s)
+			}
+			if len(e.Sources) == 0 {
+				return nil
+			}
+			if err := e.Normalize(); err != nil {
+				run.Tag("entry:normalize-error")
+				continue
+			}
+			if err := e.Validate(); err != nil {
+				run.Tag("entry:invalid")
+				continue
+			}
+			return e.ToIntentions()
+		}
+		return nil
+	}
+	c.ixns = append(c.ixns, mk(dest, r.Intn(6))...)
+	c.ixns = append(c.ixns, mk("*", r.Intn(4))...)
+	hx.Shuffle(r, c.ixns)
+	return c
+}
+
+// genCaseRaw builds intentions by hand: arbitrary precedences, odd actions, permissions that
+// validation would reject, wildcard peers (panic by contract). (peer, name, dst) stays unique.
+func genCaseRaw(r *hx.RNG, names []string) *rbacCase {
+	c := &rbacCase{dflt: r.Bool(), http: r.Chance(60)}
+	c.env = envT{localTD: localTD, bundles: pickBundles(r)}
+	if r.Chance(10) {
+		c.env.bundles = append(c.env.bundles, bundle{"*", tdOther, ""})
+	}
+	peerChoices := []string{"", "", ""}
+	for _, b := range c.env.bundles {
+		peerChoices = append(peerChoices, b.peer)
+	}
+	seen := map[string]bool{}
+	for n := r.Intn(6); n > 0; n-- {
+		x := &structs.Intention{SourceNS: "default", DestinationNS: "default", SourceType: structs.IntentionSourceConsul}
+		x.SourceName = hx.Pick(r, names)
+		if r.Chance(30) {
+			x.SourceName = "*"
+		}
+		x.SourcePeer = hx.Pick(r, peerChoices)
+		x.DestinationName = dest
+		if r.Chance(35) {
+			x.DestinationName = "*"
+		}
+		k := x.SourcePeer + "/" + x.SourceName + "/" + x.DestinationName
+		if seen[k] {
+			continue
+		}
+		seen[k] = true
+		x.Action = hx.Pick(r, []structs.IntentionAction{"allow", "deny", "allow", "deny", "", "ALLOW"})
+		if r.Chance(30) {
+			for k := 1 + r.Intn(3); k > 0; k-- {
+				x.Permissions = append(x.Permissions, genPerm(r, false))
+			}
+		}
+		if r.Chance(50) {
+			x.UpdatePrecedence()
+		} else {
+			x.Precedence = r.Intn(11)
+		}
+		c.ixns = append(c.ixns, x)
+	}
+	return c
+}
+
+func pickNames(r *hx.RNG, pool []string) []string {
+	p := append([]string(nil), pool...)
+	hx.Shuffle(r, p)
+	return p[:2+r.Intn(3)]
+}
+
+func finishCase(r *hx.RNG, c *rbacCase, maxCallers, nReqs int) {
+	c.callers = genCallers(r, c.env, c.ixns, c.http, maxCallers)
+	if c.http {
+		for i := 0; i < nReqs; i++ {
+			c.reqs = append(c.reqs, genRequest(r))
+		}
+	}
+}
+
+// ---------------------------------------------------------------- exhaustive small scope
+
+func exhaustive(run *hx.Run, maxSize int) {
+	type key struct{ peer, name, dst string }
+	var keys []key
+	for _, dst := range []string{dest, "*"} {
+		for _, peer := range []string{"", "p1"} {
+			for _, name := range []string{"a", "b", "*"} {
+				keys = append(keys, key{peer, name, dst})
+			}
+		}
+	}
+	perm := []*structs.IntentionPermission{
+		{Action: structs.IntentionActionDeny, HTTP: &structs.IntentionHTTPPermission{PathPrefix: "/admin"}},
+		{Action: structs.IntentionActionAllow, HTTP: &structs.IntentionHTTPPermission{PathPrefix: "/"}},
+	}
+	env := envT{localTD: localTD, bundles: []bundle{bundlePool[0]}}
+	reqs := []*request{{path: "/admin/x", headers: [][2]string{{":method", "GET"}}}, {path: "/v1", headers: [][2]string{{":method", "GET"}}}}
+	mkCallers := func(http, xf bool) []caller {
+		var out []caller
+		for _, n := range []string{"a", "b", "c"} {
+			out = append(out, caller{direct: ident{kind: 's', td: localTD, ns: "default", dc: "dc1", name: n}, class: "local"})
+			id := ident{kind: 's', td: tdP1, ns: "default", dc: "dc2", name: n}
+			if xf {
+				out = append(out, caller{direct: ident{kind: 'g', td: localTD, dc: "dc1"}, hasFwd: true, fwd: []xelem{{xfccPre, id}}, class: "xfcc"})
+			} else {
+				out = append(out, caller{direct: id, class: "peer"})
+			}
+		}
+		return out
+	}
+	n := 0
+	var rec func(start int, cur []*structs.Intention)
+	emit := func(cur []*structs.Intention) {
+		for _, dflt := range []bool{false, true} {
+			for _, http := range []bool{false, true} {
+				c := &rbacCase{env: env, ixns: cur, dflt: dflt, http: http, canon: true}
+				c.callers = mkCallers(http, expectXFCC(env, http, cur))
+				if http {
+					c.reqs = reqs
+				}
+				runRBAC(run, c)
+				n++
+			}
+		}
+	}
+	rec = func(start int, cur []*structs.Intention) {
+		emit(cur)
+		if len(cur) == maxSize {
+			return
+		}
+		for i := start; i < len(keys); i++ {
+			k := keys[i]
+			acts := []int{0, 1}
+			if k.dst != "*" {
+				acts = append(acts, 2)
+			}
+			for _, a := range acts {
+				x := &structs.Intention{SourceNS: "default", DestinationNS: "default", SourceName: k.name, SourcePeer: k.peer, DestinationName: k.dst}
+				switch a {
+				case 0:
+					x.Action = structs.IntentionActionDeny
+				case 1:
+					x.Action = structs.IntentionActionAllow
+				default:
+					x.Permissions = perm
+				}
+				x.UpdatePrecedence()
+				rec(i+1, append(append([]*structs.Intention(nil), cur...), x))
+			}
+		}
+	}
+	rec(0, nil)
+	run.Extra["exhaustive"] = map[string]any{"max_intentions": maxSize, "source_keys": len(keys), "cases": n, "exhaustive": true}
+}
+
+// ---------------------------------------------------------------- small-op streams (regex layer, helpers)
+
+func encSrc(s xds.VerifRBACSource) string {
+	return hx.EncS(s.Name) + ";" + hx.EncS(s.Peer) + ";" + hx.EncS(s.ExportedPartition) + ";" + hx.EncS(s.TrustDomain)
+}
+
+func genSrc(r *hx.RNG, names []string) xds.VerifRBACSource {
+	s := xds.VerifRBACSource{Name: hx.Pick(r, names), TrustDomain: localTD}
+	if r.Chance(25) {
+		s.Name = "*"
+	}
+	if r.Chance(40) {
+		b := hx.Pick(r, bundlePool)
+		s.Peer, s.TrustDomain, s.ExportedPartition = b.peer, b.td, b.ap
+	}
+	return s
+}
+
+func safeCall(f func() string) (out string) {
+	defer func() {
+		if p := recover(); p != nil {
+			out = "panic"
+		}
+	}()
+	return f()
+}
+
+func patternStream(run *hx.Run, r *hx.RNG, n int) {
+	all := append(append([]string(nil), namePool...), unsafeNames...)
+	all = append(all, "a.b+c$", `x\y`, "{}", "[", "", "a/b")
+	for i := 0; i < n; i++ {
+		s := genSrc(r, all)
+		pat := xds.VerifMakeSpiffePattern(s)
+		xp := `^[^,]+;URI=` + pat[1:len(pat)-1] + `(?:,.*)?$` // xfccPrincipal's construction, checked against the proto in rbac cases
+		run.Line("pat "+encSrc(s), "p="+hx.EncS(pat)+" x="+hx.EncS(xp))
+		run.Tag("op:pat")
+		if _, err := regexp.Compile(pat); err != nil {
+			run.Violate("rbac:pattern-does-not-compile", pat, []string{"pat " + encSrc(s)})
+		}
+		// subjects: the id of a caller, near misses of it, raw perturbations
+		var subj string
+		name := s.Name
+		if name == "*" || r.Chance(50) {
+			name = hx.Pick(r, all)
+			if r.Chance(40) && s.Name != "*" {
+				name = hx.Pick(r, nearMisses(s.Name))
+			}
+		}
+		id := ident{kind: 's', td: s.TrustDomain, ap: s.ExportedPartition, ns: "default", dc: hx.Pick(r, dcPool), name: name}
+		switch r.Intn(8) {
+		case 0:
+			id.td = strings.Replace(id.td, ".", "x", 1)
+		case 1:
+			id.ns = "other"
+		case 2:
+			id.ap = hx.Pick(r, []string{"", "ap1", "AP1", "ap2", "a.p", "axp", "default"})
+		case 3:
+			id.td = hx.Pick(r, []string{localTD, tdP1, tdP2})
+		}
+		subj = id.wire()
+		switch r.Intn(10) {
+		case 0:
+			subj += "\n"
+		case 1:
+			subj += "/x"
+		case 2:
+			subj = "x" + subj
+		case 3:
+			subj = strings.Replace(subj, "/dc/", "/dc//", 1)
+		}
+		kind := hx.Pick(r, []string{"id", "id", "xfcc", "gw"})
+		var re string
+		switch kind {
+		case "id":
+			re = pat
+		case "gw":
+			re = xds.VerifMakeSpiffeMeshGatewayPattern(s.TrustDomain, "default")
+			if r.Bool() {
+				subj = ident{kind: 'g', td: id.td, dc: id.dc}.wire()
+			}
+			run.Line("gwpat "+hx.EncS(s.TrustDomain), "p="+hx.EncS(re))
+		case "xfcc":
+			re = xp
+			pre := hx.Pick(r, []string{xfccPre, "By=x", "", `By=x;Subject="a,b"`, "By=x;URI=spiffe://evil"})
+			subj = pre + ";URI=" + subj
+			switch r.Intn(5) {
+			case 0:
+				subj += "," + xfccPre + ";URI=spiffe://" + localTD + "/gateway/mesh/dc/dc1"
+			case 1:
+				subj += ",a\nb"
+			case 2:
+				subj += ";x"
+			}
+		}
+		m, valid := fullMatch(re, subj)
+		if !valid {
+			continue
+		}
+		opm := "match " + kind + " " + encSrc(s) + " " + hx.EncS(subj)
+		run.Line(opm, "m="+hx.EncBool(m))
+		run.Tag("op:match-" + kind + ":" + hx.EncBool(m))
+		run.Case(opm, true)
+	}
+}
+
+func helperStream(run *hx.Run, r *hx.RNG, n int) {
+	all := append(append([]string(nil), namePool...), unsafeNames...)
+	for b := 0; b < 256; b++ {
+		s := "a" + string([]byte{byte(b)}) + "z"
+		u := url.URL{Path: s}
+		run.Line("esc "+hx.EncS(s), "s="+hx.EncS(u.EscapedPath()))
+	}
+	run.Tag("op:esc-all-bytes")
+	for i := 0; i < n; i++ {
+		// spiffe ids
+		id := ident{kind: 's', td: hx.Pick(r, []string{localTD, tdP1, tdP2}), ap: hx.Pick(r, []string{"", "default", "ap1", "AP1", "Default"}),
+			ns: "default", dc: hx.Pick(r, dcPool), name: hx.Pick(r, all)}
+		if r.Chance(20) {
+			id = ident{kind: 'g', td: id.td, dc: id.dc}
+		}
+		run.Line("spiffe "+id.enc(), "s="+hx.EncS(id.wire()))
+		run.Tag("op:spiffe")
+		// ixnSourceMatches
+		a, b := genSrc(r, namePool[:4]), genSrc(r, namePool[:4])
+		run.Line("srcmatch "+encSrc(a)+" "+encSrc(b), "m="+safeCall(func() string { return hx.EncBool(xds.VerifIxnSourceMatches(a, b)) }))
+		run.Tag("op:srcmatch")
+		// simplifyNotSourceSlice
+		var l []xds.VerifRBACSource
+		for k := r.Intn(5); k > 0; k-- {
+			l = append(l, genSrc(r, namePool[:3]))
+		}
+		t := make([]string, len(l))
+		for k, s := range l {
+			t[k] = encSrc(s)
+		}
+		res := xds.VerifSimplifyNotSourceSlice(append([]xds.VerifRBACSource(nil), l...))
+		t2 := make([]string, len(res))
+		for k, s := range res {
+			t2[k] = encSrc(s)
+		}
+		run.Line("simp "+hx.EncList(t), "s="+hx.EncList(t2))
+		run.Tag("op:simp")
+		// convertPermission on one permission
+		p := genPerm(r, r.Chance(70))
+		var reqs []*request
+		for k := 0; k < 6; k++ {
+			reqs = append(reqs, genRequest(r))
+		}
+		pm := xds.VerifConvertPermission(p)
+		ctx := &evalCtx{}
+		var ev, sp []bool
+		for _, q := range reqs {
+			ev = append(ev, ctx.evalPermission(pm, q))
+			sp = append(sp, permMatches(p, q))
+		}
+		op := "perm " + encPerm(p) + " " + encReqs(reqs, []*structs.IntentionPermission{p})
+		run.Line(op, "pm="+sPm(pm)+" eval="+bitsOf(ev)+" spec="+bitsOf(sp))
+		run.Tag("op:perm")
+		run.Case(op, true)
+		if bitsOf(ev) != bitsOf(sp) {
+			run.Violate("rbac:permission-conversion-changes-meaning", "convertPermission: matcher "+sPm(pm)+" evaluates "+bitsOf(ev)+", permission means "+bitsOf(sp), []string{op})
+		}
+	}
+}
+
+// corpus: deterministic cases that must be present in every run
+func corpus(run *hx.Run) {
+	mk := func(name, peer, dst string, act structs.IntentionAction) *structs.Intention {
+		x := &structs.Intention{SourceNS: "default", DestinationNS: "default", SourceName: name, SourcePeer: peer, DestinationName: dst, Action: act}
+		x.UpdatePrecedence()
+		return x
+	}
+	local := func(n string) caller {
+		return caller{direct: ident{kind: 's', td: localTD, ns: "default", dc: "dc1", name: n}, class: "local"}
+	}
+	env := envT{localTD: localTD}
+	// the two repaired defects (must now hold)
+	runRBAC(run, &rbacCase{env: env, dflt: false, canon: true,
+		ixns:    []*structs.Intention{mk("*", "", dest, "deny"), mk("web", "", "*", "allow")},
+		callers: []caller{local("web"), local("db")}})
+	runRBAC(run, &rbacCase{env: env, dflt: false, canon: true,
+		ixns:    []*structs.Intention{mk("web.v1", "", dest, "allow")},
+		callers: []caller{local("web.v1"), local("webxv1")}})
+	// known finding: a source name that url path-escaping changes never matches its own certificate
+	runRBAC(run, &rbacCase{env: env, dflt: true, canon: true,
+		ixns:    []*structs.Intention{mk("a b", "", dest, "deny")},
+		callers: []caller{local("a b"), local("ab")}})
+	run.Tag("stream:corpus")
+}
+
 func main() {
 	run := hx.Start()
-	r, err := xds.VerifMakeRBACRules(structs.SimplifiedIntentions{}, false, "td.consul", "dc1", "default", false, nil)
-	fmt.Println(r, err)
+	run.Rule = "for every intention set, default policy, listener kind, caller and request: the evaluated RBAC proto of makeRBAC*Filter allows iff intention precedence allows"
+	corpus(run)
+	nCE := run.Scale(700, 6000)
+	nRaw := run.Scale(200, 1500)
+	nUnsafe := run.Scale(40, 300)
+	maxCallers := run.Scale(36, 48)
+	for i := 0; i < nCE; i++ {
+		r := run.RNG.Fork(uint64(i))
+		c := genCaseCE(r, run, pickNames(r, namePool))
+		finishCase(r, c, maxCallers, 6)
+		run.Tag("stream:config-entry")
+		runRBAC(run, c)
+		if i < 3 {
+			run.Sample(map[string]any{"op": c.op()})
+		}
+	}
+	for i := 0; i < nRaw; i++ {
+		r := run.RNG.Fork(uint64(1_000_000 + i))
+		c := genCaseRaw(r, pickNames(r, namePool))
+		finishCase(r, c, maxCallers, 6)
+		run.Tag("stream:raw")
+		runRBAC(run, c)
+	}
+	for i := 0; i < nUnsafe; i++ {
+		r := run.RNG.Fork(uint64(2_000_000 + i))
+		names := append(pickNames(r, unsafeNames), hx.Pick(r, namePool))
+		c := genCaseCE(r, run, names)
+		finishCase(r, c, maxCallers, 4)
+		run.Tag("stream:url-unsafe-names")
+		runRBAC(run, c)
+	}
+	patternStream(run, run.RNG.Fork(3_000_000), run.Scale(1500, 12000))
+	helperStream(run, run.RNG.Fork(4_000_000), run.Scale(300, 2500))
+	if run.Thorough() && run.Seed == 1 || os.Getenv("VERIF_C14_EXHAUSTIVE") != "" {
+		exhaustive(run, 3)
+	} else {
+		exhaustive(run, 2)
+	}
 	run.Finish()
 }
